@@ -673,6 +673,8 @@ class SymExec(object):
                                 cache[n.id] = r_
                     if cache[n.id] is not None:
                         return cache[n.id]
+                    if self.record_fields(c[1]) is not None or self._class_named(c[1][1]) is not None:
+                        return c            # a record built from literals: the constructor call is the value
                     return ('name', self.canonical(n.id))
                 return c
             return ('name', self.canonical(n.id))
@@ -938,6 +940,11 @@ class SymExec(object):
                     return ('const', (l_[1] == r_[1]) == (op_ in ('==', 'is')))
                 if l_[0] == 'const' and op_ in ('in', 'not in') and r_[0] in ('tuple', 'list', 'set') and all(x[0] == 'const' for x in r_[1]):
                     return ('const', (l_ in r_[1]) == (op_ == 'in'))
+                if op_ in ('is', 'is not') and ('const', None) in (l_, r_):
+                    other_ = r_ if l_ == ('const', None) else l_
+                    if other_[0] in ('cmp', 'bool', 'list', 'tuple', 'dict', 'set', 'fstr', 'listcomp', 'dictcomp') or \
+                            (other_[0] == 'const' and other_[1] is not None) or (other_[0] == 'unop' and other_[1] == 'not'):
+                        return ('const', op_ == 'is not')       # a truth value / a display is never None
                 return ('cmp', op_, l_, r_)
             parts = []
             left = n.left
@@ -1064,7 +1071,7 @@ class SymExec(object):
             return None
         v = asg.value
         ok = isinstance(v, ast.Constant) or (isinstance(v, ast.Call) and isinstance(v.func, (ast.Name, ast.Attribute))
-                                             and src(v.func) in ('attrgetter', 'operator.attrgetter', 'itemgetter', 'operator.itemgetter', 'count', 'itertools.count'))
+                                             and src(v.func) in ('attrgetter', 'operator.attrgetter', 'itemgetter', 'operator.itemgetter'))
         if not ok:
             return None
         probe = State()
@@ -1400,6 +1407,10 @@ class SymExec(object):
                     return self.ev(s_.value, sub) if s_.value is not None else ('const', None)
                 if isinstance(s_, ast.If):
                     c = self.ev(s_.test, sub)
+                    if c[0] == 'const':
+                        # decided by the arguments of this call: only the branch taken is read
+                        stmts = list(s_.body if c[1] else s_.orelse) + stmts
+                        continue
                     self._guard.append((c, True))
                     saved = dict(sub.env)
                     a_ = body(list(s_.body) + stmts)
